@@ -305,8 +305,8 @@ func (rm *RequestManager) processResponses(p peer.ID,
 		attribute.Int("blockCount", len(blks)),
 	))
 	defer span.End()
-	filteredResponses := rm.processExtensions(responses, p)
-	filteredResponses = rm.filterResponsesForPeer(filteredResponses, p)
+	filteredResponses := rm.filterResponsesForPeer(responses, p)
+	filteredResponses = rm.processExtensions(filteredResponses, p)
 	blkMap := make(map[cid.Cid][]byte, len(blks))
 	for _, blk := range blks {
 		blkMap[blk.Cid()] = blk.RawData()
